@@ -162,14 +162,19 @@ def _c08_fresh_with_thini(sc1, thini):
 def c08(ctx):
     """multi-season run (off-season skipped) vs fresh single-season runs"""
     seed, tier = ctx["seed"], ctx["tier"]
-    n = 8 if tier == "quick" else 60
+    n = 10 if tier == "quick" else 60
     rng = np.random.default_rng(seed + 8)
     viols, evals, nontriv, tried = [], 0, 0, 0
     methods = [0, 1, 2, 3, 4, 5]
     samples = []
     WP = {"wc_type": "Prop", "method": "Layer", "depth_layer": [1], "value": ["WP"]}
     FC = {"wc_type": "Prop", "method": "Layer", "depth_layer": [1], "value": ["FC"]}
+    DRY = {"wc_type": "Pct", "method": "Layer", "depth_layer": [1], "value": [10.0]}
     forced = [   # classes in which a leak between seasons is observable (DESIGN §11)
+        # rainfed on a dry seed bed: germination is delayed on the planting day of every season (what the first
+        # day after planting does then differs from what the first day after germination does)
+        dict(crop="Wheat", station="tunis_climate.txt", irr_method=0, iwc=DRY, soil="SandyLoam", soil_kind="builtin", dz=None,
+             n_seasons=3, off_season=False, start_mode="at", gw=False, planting="10/15"),
         dict(crop="Wheat", station="tunis_climate.txt", irr_method=4, iwc=WP, soil="Loam", soil_kind="builtin", n_seasons=4, off_season=False, start_mode="at", gw=False),
         dict(crop="Wheat", station="tunis_climate.txt", irr_method=2, iwc=FC, soil="SandyLoam", soil_kind="builtin", n_seasons=3, off_season=False, start_mode="at", gw=False),
         dict(crop="Maize", station="champion_climate.txt", irr_method=1, iwc=FC, soil_kind="builtin", n_seasons=2, off_season=False, start_mode="before", gw=False),
@@ -308,6 +313,12 @@ def c09(ctx):
     # long windows: random partitions
     n = 6 if tier == "quick" else 60
     scs = valid_scens(seed + 90, n)
+    # state a resumed call could touch: water ponded behind fallow-season bunds (none during the season), a moving
+    # shallow table, mulches, a dry start with delayed germination — stepped in small pieces through the fallow days
+    frng = np.random.default_rng(seed + 91)
+    scs.insert(0, S.gen_scenario(frng, 9900, dict(crop="PaddyRice", station="hyderabad_climate.txt", irr_method=0, fm="none",
+                                                   ffm="bunds", soil="Paddy", soil_kind="builtin", dz=[0.1] * 12, planting="08/01",
+                                                   n_seasons=2, start_mode="before", off_season=True, gw=False)))
     for sc in scs:
         base = run_full(sc)
         if base.error:
@@ -316,7 +327,7 @@ def c09(ctx):
         for rep in range(2):
             parts, left = [], max(total, 1) + 5
             while left > 0:
-                k = int(rng.choice([1, 1, 2, 3, 7, 30, 100, 400]))
+                k = int(rng.choice([1, 1, 2, 3] if (sc["id"] == 9900 and rep == 0) else [1, 1, 2, 3, 7, 30, 100, 400]))
                 parts.append(k)
                 left -= k
             part = run_full(sc, steps=parts)
@@ -374,6 +385,75 @@ for sc in scs:
     out.append(diffs.digest(r))
 print(json.dumps(out))
 """
+
+
+# every scenario in a freshly forked copy of a process that has imported the package and run nothing
+CHILD_FORK = r"""
+import sys, json, os
+sys.path.insert(0, %r)
+import warnings; warnings.filterwarnings('ignore')
+from aqv import diffs, scen
+import numpy as np
+scs = json.loads(sys.stdin.read())
+out = []
+for sc in scs:
+    rd, wr = os.pipe()
+    pid = os.fork()
+    if pid == 0:
+        os.close(rd)
+        try:
+            d = diffs.digest(diffs.run_full(sc))
+        except BaseException as e:
+            d = 'child-error:' + type(e).__name__
+        os.write(wr, d.encode()); os._exit(0)
+    os.close(wr)
+    buf = b''
+    while True:
+        b = os.read(rd, 4096)
+        if not b:
+            break
+        buf += b
+    os.close(rd); os.waitpid(pid, 0)
+    out.append(buf.decode())
+print(json.dumps(out))
+"""
+
+
+def run_each_forked(scs, hashseed=0):
+    env = dict(os.environ)
+    env["PYTHONHASHSEED"] = str(hashseed)
+    p = subprocess.run([sys.executable, "-W", "ignore", "-c", CHILD_FORK % os.path.dirname(HERE)],
+                       input=json.dumps(scs).encode(), stdout=subprocess.PIPE, stderr=subprocess.PIPE, env=env)
+    if p.returncode != 0:
+        raise RuntimeError("child failed: " + p.stderr.decode()[-800:])
+    return json.loads(p.stdout.decode().strip().split("\n")[-1])
+
+
+def one_parameter_variants(crop_name, rng, k):
+    """`k` crop-parameter overrides of a catalogue crop, each changing ONE real-valued parameter by 7 % (a result
+    remembered from an earlier model under a key that leaves a parameter out is then handed to the wrong model)"""
+    from aquacrop import Crop
+    c = Crop(crop_name, planting_date="01/01")
+    skip = {"Name", "planting_date", "harvest_date"}
+    names = []
+    for key in sorted(ONE_PARAM_KEYS):
+        v = getattr(c, key, None)
+        if key in skip or isinstance(v, (bool, str)) or v is None or not isinstance(v, (float, np.floating)):
+            continue
+        if float(v) == -9.0 or float(v) != float(v):
+            continue
+        names.append((key, float(v)))
+    idx = rng.permutation(len(names))[:k] if k < len(names) else range(len(names))
+    return [(names[i][0], (names[i][1] * 1.07 if names[i][1] != 0 else 0.05)) for i in idx]
+
+
+ONE_PARAM_KEYS = ["fshape_b", "PctZmin", "fshape_ex", "ETadj", "Aer", "beta", "a_Tr", "GermThr", "CCmin", "MaxFlowPct",
+                  "HIini", "bsted", "bface", "Tbase", "Tupp", "Tmax_up", "Tmax_lo", "Tmin_up", "Tmin_lo", "GDD_up", "Zmin",
+                  "Zmax", "fshape_r", "SxTopQ", "SxBotQ", "SeedSize", "PlantPop", "CCx", "Kcb", "fage", "WP", "WPy", "fsink",
+                  "HI0", "dHI_pre", "a_HI", "b_HI", "dHI0", "exc", "p_up1", "p_up2", "p_up3", "p_up4", "p_lo1",
+                  "fshape_w1", "fshape_w2", "fshape_w3", "CGC_CD", "CDC_CD", "EmergenceCD", "MaxRootingCD", "SenescenceCD",
+                  "MaturityCD", "HIstartCD", "FloweringCD", "YldFormCD", "CGC", "CDC", "Emergence", "MaxRooting", "Senescence",
+                  "Maturity", "HIstart", "Flowering", "YldForm"]
 
 
 def digest(r):
@@ -463,11 +543,38 @@ def c10(ctx):
     # (d) two models built from the SAME user objects: B built and run after A has run must give what B gives when
     # built from freshly made objects (days before the first planting date are simulated; crops whose aeration /
     # rooting values differ from the pre-season stand-in's)
+    shared = []
     for crop_name, wname, pl, st, en in (("Barley", "brussels_climate.txt", "03/20", "1980/01/01", "1981/10/30"),
                                          ("PaddyRice", "hyderabad_climate.txt", "08/01", "2000/07/01", "2001/12/30")):
-        sc_s = dict(id=f"c10-shared-{crop_name}", start=st, end=en, weather={"kind": "file", "name": wname},
-                    soil={"type": "Clay"}, crop={"name": crop_name, "planting": pl, "overrides": {}}, irr={"method": 0},
-                    off_season=True)
+        shared.append(dict(id=f"c10-shared-{crop_name}", start=st, end=en, weather={"kind": "file", "name": wname},
+                           soil={"type": "Clay"}, crop={"name": crop_name, "planting": pl, "overrides": {}}, irr={"method": 0},
+                           off_season=True))
+    # ... and with a non-default object of EVERY user-facing kind (low bunds that monsoon storms overtop, mulches,
+    # fallow management, a dated schedule, a moving water table, percentage initial water, a CO2 series): a unit
+    # conversion or normalisation done in place on the caller's object compounds on its second use
+    shared.append(dict(id="c10-shared-all-kinds-paddy", start="2000/07/01", end="2001/12/30",
+                       weather={"kind": "file", "name": "hyderabad_climate.txt"}, soil={"type": "Paddy"},
+                       crop={"name": "PaddyRice", "planting": "08/01", "overrides": {}},
+                       irr={"method": 3, "schedule": [["2000-08-05", 40.0], ["2000-09-10", 25.0], ["2001-08-20", 30.0]],
+                            "AppEff": 85.0, "WetSurf": 60.0, "MaxIrr": 50.0},
+                       fm=dict(bunds=True, z_bund=0.04, bund_water=20.0, mulches=True, mulch_pct=50.0, f_mulch=0.5),
+                       ffm=dict(bunds=True, z_bund=0.03, bund_water=0.0, curve_number_adj=True, curve_number_adj_pct=10.0),
+                       gw={"water_table": "Y", "method": "Variable", "dates": ["2000-07-01", "2001-01-01", "2001-12-30"],
+                           "values": [1.6, 2.4, 1.8]},
+                       iwc={"wc_type": "Pct", "method": "Layer", "depth_layer": [1, 2], "value": [60.0, 80.0]},
+                       co2={"series": [[1999, 368.0], [2000, 370.0], [2001, 372.0], [2002, 374.0]]}, off_season=True))
+    shared.append(dict(id="c10-shared-all-kinds-maize", start="1990/04/01", end="1991/12/30",
+                       weather={"kind": "file", "name": "champion_climate.txt"},
+                       soil={"type": "custom", "layers": [[0.4, 0.10, 0.22, 0.41, 1200, 100], [1.6, 0.23, 0.39, 0.5, 125, 100]],
+                             "dz": [0.1] * 12, "kwargs": {"cn": 72.0, "rew": 9.0}},
+                       crop={"name": "Maize", "planting": "05/01", "harvest": "10/30", "overrides": {"CCx": 0.9}},
+                       irr={"method": 1, "SMT": [70.0, 60.0, 50.0, 40.0], "MaxIrrSeason": 300.0},
+                       fm=dict(bunds=True, z_bund=0.02, bund_water=0.0, sr_inhb=False),
+                       ffm=dict(mulches=True, mulch_pct=80.0, f_mulch=0.6),
+                       gw={"water_table": "Y", "method": "Constant", "dates": ["1990-04-01", "1991-03-01"], "values": [2.2, 1.9]},
+                       iwc={"wc_type": "Num", "method": "Depth", "depth_layer": [0.3, 1.0, 2.0], "value": [0.15, 0.30, 0.35]},
+                       co2={"constant": True, "current": 410.0}, arrays=True, off_season=True))
+    for sc_s in shared:
         try:
             fresh_b = run_full(sc_s)
             objs = S.build_objects(sc_s)
@@ -483,7 +590,32 @@ def c10(ctx):
                                diff=first_diff(fresh_b, shared_b)))
         except Exception:  # noqa: BLE001
             pass
-    return viols, dict(evaluations=evals, distinct_nontrivial=len(scs) * len(seeds), c10_hash_seeds=seeds,
+    # (e) one-parameter variants of one configuration: the plain configuration first and then every variant in ONE
+    # process, against each variant alone in a freshly forked process that has run nothing
+    vrng = np.random.default_rng(seed + 1010)
+    n_var = 0
+    for crop_name, wname, pl, st, en in ((("Wheat", "tunis_climate.txt", "10/15", "1985/10/15", "1986/07/30"),) if tier == "quick" else
+                                         (("Wheat", "tunis_climate.txt", "10/15", "1985/10/15", "1986/07/30"),
+                                          ("MaizeGDD", "champion_climate.txt", "05/01", "1990/05/01", "1990/12/30"),
+                                          ("Tomato", "cordoba_climate.txt", "04/01", "2000/04/01", "2000/11/30"))):
+        try:
+            variants = one_parameter_variants(crop_name, vrng, 24 if tier == "quick" else 10 ** 6)
+        except Exception:  # noqa: BLE001
+            continue
+        b0 = dict(id=f"c10-variant-{crop_name}-plain", start=st, end=en, weather={"kind": "file", "name": wname},
+                  soil={"type": "Loam"}, crop={"name": crop_name, "planting": pl, "overrides": {}}, irr={"method": 0}, off_season=False)
+        vs = [dict(b0, id=f"c10-variant-{crop_name}-{k}", crop={"name": crop_name, "planting": pl, "overrides": {k: v}})
+              for k, v in variants]
+        together = run_in_subprocess([b0] + vs, 0)[1:]
+        apart = run_each_forked(vs, 0)
+        for sc_v, a_, b_ in zip(vs, together, apart):
+            evals += 1
+            n_var += 1
+            if a_ != b_:
+                viols.append(V("C10", "order-dependence-variant", sc_v,
+                               "a configuration differing in one crop parameter from one run earlier in the process gives other results than alone",
+                               after=b0["id"]))
+    return viols, dict(evaluations=evals, distinct_nontrivial=len(scs) * len(seeds) + n_var, c10_hash_seeds=seeds,
                        c10_samples=[dict(scen=s["id"], crop=s["crop"]["name"]) for s in scs[:2]])
 
 
@@ -532,6 +664,28 @@ def c11(ctx):
         dict(id=11907, start="1985/09/01", end="1987/09/30", weather={"kind": "file", "name": "tunis_climate.txt"},
              soil={"type": "Loam"}, crop={"name": "Barley", "planting": "11/01", "overrides": {"Zmin": 0.2}},
              irr={"method": 2, "IrrInterval": 7}, fm={"bunds": True, "z_bund": 0.05, "bund_water": 80.0}, off_season=False),
+        # inputs handed over as numpy arrays (percentages of available water per layer, thresholds, observed depths,
+        # compartment thicknesses): a conversion done in place changes the caller's array for the next use
+        dict(id=11908, start="1990/04/15", end="1991/12/30", weather={"kind": "file", "name": "champion_climate.txt"},
+             soil={"type": "custom", "layers": [[0.4, 0.10, 0.22, 0.41, 1200, 100], [1.6, 0.23, 0.39, 0.5, 125, 100]],
+                   "dz": [0.1] * 12, "kwargs": {"cn": 72.0, "rew": 9.0}},
+             crop={"name": "Maize", "planting": "05/01", "overrides": {}},
+             iwc={"wc_type": "Pct", "method": "Layer", "depth_layer": [1, 2], "value": [50.0, 80.0]},
+             irr={"method": 1, "SMT": [70.0, 60.0, 50.0, 40.0]},
+             gw={"water_table": "Y", "method": "Variable", "dates": ["1990-04-15", "1991-01-01", "1991-12-30"], "values": [2.4, 1.8, 2.2]},
+             arrays=True, off_season=True),
+        # thermal-time crops with an explicit latest harvest date, started on the planting day (calendar-derived
+        # lengths are written onto the crop object by the first initialisation)
+        dict(id=11910, start="1985/10/15", end="1987/09/30", weather={"kind": "file", "name": "tunis_climate.txt"},
+             soil={"type": "SandyLoam"}, crop={"name": "WheatGDD", "planting": "10/15", "harvest": "06/20", "overrides": {}},
+             irr={"method": 0}, off_season=False),
+        dict(id=11911, start="1990/05/01", end="1991/12/30", weather={"kind": "file", "name": "champion_climate.txt"},
+             soil={"type": "Loam"}, crop={"name": "MaizeGDD", "planting": "05/01", "harvest": "10/30", "overrides": {}},
+             irr={"method": 1, "SMT": [60.0] * 4}, off_season=True),
+        dict(id=11909, start="1985/10/15", end="1987/09/30", weather={"kind": "file", "name": "tunis_climate.txt"},
+             soil={"type": "SandyLoam", "dz": [0.1] * 12}, crop={"name": "Wheat", "planting": "10/15", "overrides": {}},
+             iwc={"wc_type": "Num", "method": "Depth", "depth_layer": [0.3, 1.0], "value": [0.15, 0.2]},
+             irr={"method": 0}, arrays=True, off_season=False),
     ]
     scs = explicit + scs
     for sc in scs:
@@ -656,6 +810,10 @@ def c12(ctx):
     scs.insert(0, dict(id=12901, start="2000/06/20", end="2002/12/30", weather={"kind": "file", "name": "hyderabad_climate.txt"},
                        soil={"type": "Paddy"}, crop={"name": "PaddyRice", "planting": "07/01", "overrides": {}},
                        fm={"bunds": True, "z_bund": 0.05, "bund_water": 80.0}, irr={"method": 0}, off_season=False))
+    # a user-built weather table (not passed through `prepare_weather`): days with a reference ET below 0.1 mm
+    for i, regime in enumerate(["mild", "cold"]):
+        scs.insert(0, S.gen_scenario(rng, 12010 + i, dict(crop=["Barley", "Wheat"][i], station="brussels_climate.txt", synth=True, regime=regime,
+                                                         n_seasons=1, start_mode="before", off_season=True, irr_method=0, gw=False)))
     for sc in scs:
         try:
             model = S.build_model(sc)
@@ -798,11 +956,32 @@ def c14(ctx):
         ext_days = int(rng.choice([20, 90, 200]))
         if "_ext_days" in sc:
             ext_days = int(sc["_ext_days"])
-        new_end = min(end + pd.Timedelta(days=ext_days), pd.Timestamp(hi))
-        if new_end > end and base.summary:
+        new_ends = [("", min(end + pd.Timedelta(days=ext_days), pd.Timestamp(hi)))]
+        # ... to exactly the next planting anniversary (the boundary of "one more season is scheduled"), and with the
+        # extended run given the very DataFrame object the shorter run was given
+        try:
+            pm, pd_ = [int(x) for x in sc["crop"]["planting"].split("/")]
+            ann = pd.Timestamp(year=end.year, month=pm, day=pd_)
+            if ann <= end:
+                ann = pd.Timestamp(year=end.year + 1, month=pm, day=pd_)
+            if ann <= pd.Timestamp(hi):
+                new_ends.append(("-to-planting-date", ann))
+        except Exception:  # noqa: BLE001
+            pass
+        new_ends.append(("-same-weather-object", new_ends[0][1]))
+        for tag, new_end in new_ends:
+            if not (new_end > end and base.summary):
+                continue
             sc3 = copy.deepcopy(sc); sc3["end"] = new_end.strftime("%Y/%m/%d")
-            r3 = run_full(sc3)
+            if tag == "-same-weather-object":
+                o3 = S.build_objects(sc3); o3["weather_df"] = objs["weather_df"]
+                r3 = run_full(objects=o3)
+            else:
+                r3 = run_full(sc3)
             evals += 1; nontriv += 1
+            if r3.error:
+                viols.append(V("C14", "extend-raises" + tag, sc, "a run that completes raises when its end date is moved later (covered by the weather table)",
+                               new_end=sc3["end"], error=r3.error, calendar_crop=bool(cal)))
             if not r3.error:
                 # seasons harvested before the old end
                 last_t = max(row[3] for row in base.summary)
@@ -839,6 +1018,10 @@ def c15(ctx):
     scs.insert(1, dict(id=15901, start="1990/05/01", end="1991/11/30", weather={"kind": "file", "name": "champion_climate.txt"},
                        soil={"type": "SandyLoam"}, crop={"name": "MaizeGDD", "planting": "05/01", "overrides": {}},
                        irr={"method": 1, "SMT": [60.0] * 4}, off_season=False))
+    # a calendar-day crop converted to thermal time at initialisation (the conversion works on a scratch copy of the table)
+    scs.insert(2, dict(id=15902, start="1982/10/15", end="1984/07/30", weather={"kind": "file", "name": "tunis_climate.txt"},
+                       soil={"type": "SandyLoam"}, crop={"name": "Wheat", "planting": "10/15", "overrides": {"SwitchGDD": 1}},
+                       irr={"method": 0}, off_season=False))
     cols = ["MinTemp", "MaxTemp", "Precipitation", "ReferenceET", "Date"]
     import itertools
     perms = list(itertools.permutations(cols))
@@ -864,6 +1047,12 @@ def c15(ctx):
         w["WindSpeed"] = gaps
         w["Remarks"] = [None if i % 97 == 0 else "ok" for i in range(len(w))]
         trans.append(("extra-columns-with-gaps", w))
+        # unrelated columns that happen to carry names the package uses for its own scratch columns / outputs
+        w = w0.copy()
+        for j, nm in enumerate(["gdd", "GDD", "gdd_cum", "Tmin", "Tmax", "ET0", "Precip", "P", "index", "level_0", "dap",
+                                "time_step_counter", "season_counter", "date", "year", "Year", "Month", "Day", "DOY"]):
+            w[nm] = (np.arange(len(w), dtype=float) * (j + 1)) % 7.0
+        trans.append(("extra-columns-internal-names", w))
         w = w0.copy(); w.index = np.arange(len(w))[::-1] + 1000
         trans.append(("reindexed", w))
         w = w0.copy(); w.index = np.arange(len(w)) + 1
@@ -875,6 +1064,13 @@ def c15(ctx):
         w = w0.copy(); w.index = pd.Index([f"r{i}" for i in range(len(w))])
         trans.append(("string-index", w))
         start, end = pd.Timestamp(sc["start"]), pd.Timestamp(sc["end"])
+        # a table concatenated from several files without renumbering: row labels repeat (rows outside the window carry
+        # the labels of rows inside it)
+        n_in = int(((w0.Date >= start) & (w0.Date <= end)).sum())
+        cut1 = max(1, int((w0.Date < start).sum()) + n_in // 3)
+        cut2 = min(len(w0) - 1, cut1 + max(1, n_in // 3))
+        parts = [w0.iloc[:cut1].reset_index(drop=True), w0.iloc[cut1:cut2].reset_index(drop=True), w0.iloc[cut2:].reset_index(drop=True)]
+        trans.append(("repeated-row-labels", pd.concat([x for x in parts if len(x)])))
         k0 = int(rng.integers(0, 30))
         inside = w0[(w0.Date >= start - pd.Timedelta(days=k0)) & (w0.Date <= end + pd.Timedelta(days=int(rng.integers(0, 30))))]
         trans.append(("trimmed-rows", inside.reset_index(drop=True)))
@@ -1050,6 +1246,17 @@ def rejection_unjustified(sc, err, model):
     the season being set up to the end of the simulation window.  Returns a description when the rejection is
     contradicted by that computation, else None (also when it cannot be checked)."""
     try:
+        if err is not None and err[0] == "ValueError" and ("The first date of the climate data" in err[1]
+                                                          or "The model end date cannot be longer" in err[1]):
+            # "the weather table does not cover the window" must be true of the table: its first record after the
+            # start date / its last record before the end date
+            w = S.weather_of(sc)
+            first, last = pd.Timestamp(w["Date"].iloc[0]), pd.Timestamp(w["Date"].iloc[-1])
+            start, end = pd.Timestamp(sc["start"]), pd.Timestamp(sc["end"])
+            if first <= start and last >= end:
+                return dict(kind="window-not-covered", first_record=str(first.date()), last_record=str(last.date()),
+                            start=str(start.date()), end=str(end.date()))
+            return None
         if err is None or err[0] != "AssertionError" or model is None:
             return None
         few, year = "not enough growing degree days" in err[1], "longer than 1 year" in err[1]
@@ -1189,6 +1396,11 @@ def c16_scenarios(seed, tier):
                                end=(end + pd.Timedelta(days=5)).strftime("%Y-%m-%d"), south=(pm >= 9)),
                   soil=dict(type=soil), crop=dict(name=crop, planting=f"{pm:02d}/{pd_:02d}", overrides={}),
                   off_season=bool(i % 2))
+        if i % 13 == 6:
+            # a weather table built for exactly the window: first record on the start date, last on the end date
+            sc["weather"]["start"], sc["weather"]["end"] = start.strftime("%Y-%m-%d"), end.strftime("%Y-%m-%d")
+        elif i % 13 == 7:
+            sc["weather"]["end"] = end.strftime("%Y-%m-%d")
         if soil not in ("Paddy", "ac_TunisLocal") and rng.random() < 0.3:
             sc["soil"]["dz"] = S.DZ_CHOICES[1 + int(rng.integers(len(S.DZ_CHOICES) - 1))]
         # one or two option switches per cell, cycling through all documented values
@@ -1528,46 +1740,65 @@ def c18_model_checks(sc, model, viols):
             if np.ptp(P[f][idx]) != 0:
                 viols.append(V("C18", "layer-props-not-constant", sc, "compartments of one layer differ in a hydraulic property", layer=int(l), field=f))
                 break
-    # initial water content as requested (Layer method, no water table)
+    # initial water content as requested; under a water table: as requested above the table and saturated at and
+    # below it (a request for field capacity throughout is instead answered with the capillary-adjusted field capacity)
     iw = sc.get("iwc") or {"wc_type": "Prop", "method": "Layer", "depth_layer": [1], "value": ["FC"]}
     th0 = np.array(model._init_cond.th, dtype=float)
-    if model._param_struct.water_table == 0:
-        if iw["method"] == "Layer":
-            for l, v in zip(iw["depth_layer"], iw["value"]):
-                idx = lay == int(l)
-                if not idx.any():
-                    continue
-                if iw["wc_type"] == "Prop":
-                    want = {"SAT": P["th_s"], "FC": P["th_fc"], "WP": P["th_wp"]}[v][idx]
-                elif iw["wc_type"] == "Pct":
-                    want = P["th_wp"][idx] + (float(v) / 100.0) * (P["th_fc"][idx] - P["th_wp"][idx])
-                else:
-                    want = np.full(idx.sum(), float(v))
-                if not np.allclose(th0[idx], want, rtol=0, atol=1e-12):
-                    viols.append(V("C18", "iwc-layer", sc, "initial water content of a layer differs from the request", layer=int(l), request=str(v),
-                                   got=float(th0[idx][0]), want=float(np.atleast_1d(want)[0])))
-        else:
-            depths = np.array(iw["depth_layer"], dtype=float)
-            if iw["wc_type"] == "Num":
-                vals = np.array(iw["value"], dtype=float)
+    wt = int(model._param_struct.water_table) == 1
+    sub = np.zeros(n, dtype=bool)
+    if wt:
+        if iw["wc_type"] == "Prop" and str(list(iw["value"])[-1]) == "FC":
+            return
+        try:
+            zgw0 = float(np.asarray(model._param_struct.z_gw, dtype=float)[0])
+        except Exception:  # noqa: BLE001
+            return
+        if zgw0 >= 0 and (mid >= zgw0).any():
+            sub[int(np.argmax(mid >= zgw0)):] = True
+    if iw["method"] == "Layer":
+        want_all, known = th0.copy(), np.zeros(n, dtype=bool)
+        req = {}
+        for l, v in zip(iw["depth_layer"], iw["value"]):
+            idx = lay == int(l)
+            if not idx.any():
+                continue
+            if iw["wc_type"] == "Prop":
+                want = {"SAT": P["th_s"], "FC": P["th_fc"], "WP": P["th_wp"]}[v][idx]
+            elif iw["wc_type"] == "Pct":
+                want = P["th_wp"][idx] + (float(v) / 100.0) * (P["th_fc"][idx] - P["th_wp"][idx])
             else:
-                vals = []
-                for dpt, v in zip(depths, iw["value"]):
-                    j = int(np.argmax(P["dzsum"] > dpt)) if (P["dzsum"] > dpt).any() else n - 1
-                    if iw["wc_type"] == "Prop":
-                        vals.append({"SAT": P["th_s"], "FC": P["th_fc"], "WP": P["th_wp"]}[v][j])
-                    else:
-                        vals.append(P["th_wp"][j] + (float(v) / 100.0) * (P["th_fc"][j] - P["th_wp"][j]))
-                vals = np.array(vals, dtype=float)
-            if depths[0] > 0:
-                depths = np.append([0], depths); vals = np.append([vals[0]], vals)
-            if depths[-1] < P["dzsum"][-1]:
-                depths = np.append(depths, [P["dzsum"][-1]]); vals = np.append(vals, [vals[-1]])
-            want = np.interp(mid, depths, vals)
-            if not np.allclose(th0, want, rtol=0, atol=1e-9):
-                i = int(np.argmax(np.abs(th0 - want)))
-                viols.append(V("C18", "iwc-depth-interp", sc, "initial water content is not the interpolation of the depth points at compartment mid-depths",
-                               comp=i, got=float(th0[i]), want=float(want[i])))
+                want = np.full(idx.sum(), float(v))
+            want_all[idx], known[idx] = want, True
+            req[int(l)] = str(v)
+        want_all[sub], known[sub] = P["th_s"][sub], True
+        bad = known & ~np.isclose(th0, want_all, rtol=0, atol=1e-12)
+        if bad.any():
+            i = int(np.argmax(bad))
+            viols.append(V("C18", "iwc-layer", sc, "initial water content of a layer differs from the request", layer=int(lay[i]), comp=i,
+                           request=req.get(int(lay[i])), got=float(th0[i]), want=float(want_all[i]), water_table=bool(wt), submerged=bool(sub[i])))
+    else:
+        depths = np.array(iw["depth_layer"], dtype=float)
+        if iw["wc_type"] == "Num":
+            vals = np.array(iw["value"], dtype=float)
+        else:
+            vals = []
+            for dpt, v in zip(depths, iw["value"]):
+                j = int(np.argmax(P["dzsum"] > dpt)) if (P["dzsum"] > dpt).any() else n - 1
+                if iw["wc_type"] == "Prop":
+                    vals.append({"SAT": P["th_s"], "FC": P["th_fc"], "WP": P["th_wp"]}[v][j])
+                else:
+                    vals.append(P["th_wp"][j] + (float(v) / 100.0) * (P["th_fc"][j] - P["th_wp"][j]))
+            vals = np.array(vals, dtype=float)
+        if depths[0] > 0:
+            depths = np.append([0], depths); vals = np.append([vals[0]], vals)
+        if depths[-1] < P["dzsum"][-1]:
+            depths = np.append(depths, [P["dzsum"][-1]]); vals = np.append(vals, [vals[-1]])
+        want = np.interp(mid, depths, vals)
+        want[sub] = P["th_s"][sub]
+        if not np.allclose(th0, want, rtol=0, atol=1e-9):
+            i = int(np.argmax(np.abs(th0 - want)))
+            viols.append(V("C18", "iwc-depth-interp", sc, "initial water content is not the interpolation of the depth points at compartment mid-depths",
+                           comp=i, got=float(th0[i]), want=float(want[i]), water_table=bool(wt), submerged=bool(sub[i])))
 
 
 def c18(ctx):
@@ -1601,6 +1832,14 @@ def c18(ctx):
                     soil={"type": "custom", "dz": [0.05] * 4 + [0.1] * 10,
                           "layers": [[0.2, 0.06, 0.13, 0.36, 3000, 100], [0.3, 0.10, 0.22, 0.41, 1200, 100],
                                      [0.3, 0.23, 0.39, 0.5, 125, 100], [0.4, 0.39, 0.54, 0.55, 2, 100]]}))
+    # a percentage-of-available-water request over a water table close enough to raise field capacity (the
+    # percentage refers to the layer's own field capacity), and a table inside the profile (saturated below it)
+    scs.append(dict(base, id="c18-pct-over-table", iwc={"wc_type": "Pct", "method": "Layer", "depth_layer": [1, 2], "value": [50.0, 80.0]},
+                    soil={"type": "custom", "dz": [0.1] * 12, "layers": [[0.4, 0.10, 0.22, 0.41, 1200, 100], [0.8, 0.23, 0.39, 0.5, 125, 100]]},
+                    gw={"water_table": "Y", "method": "Constant", "dates": ["1982-05-01"], "values": [1.6]}))
+    scs.append(dict(base, id="c18-pct-depth-table-inside", iwc={"wc_type": "Pct", "method": "Depth", "depth_layer": [0.2, 0.9], "value": [30.0, 70.0]},
+                    soil={"type": "ClayLoam", "dz": [0.1] * 12},
+                    gw={"water_table": "Y", "method": "Constant", "dates": ["1982-05-01"], "values": [0.95]}))
     scs.append(dict(base, id="c18-ulp-short", iwc=S.random_iwc(rng, 2),
                     soil={"type": "custom", "dz": [0.1] * 9, "layers": [[0.3, 0.10, 0.22, 0.41, 1200, 100], [0.6, 0.23, 0.39, 0.5, 125, 100]]}))
     for sc in scs:
@@ -1613,6 +1852,26 @@ def c18(ctx):
         deep = float(np.sum(model._param_struct.Soil.Profile.dz)) > float(np.sum(np.array(sc["soil"].get("dz") or [0.1] * 12))) + 1e-9
         nontriv += 1
         c18_model_checks(sc, model, viols)
+    # one soil description used for two models, the second crop rooting deeper than the first (the profile the first
+    # model left on the object is deepened again, and the arrays the second model runs on must follow)
+    for soil_spec in ({"type": "SandyLoam"}, {"type": "custom", "dz": [0.1] * 12,
+                                              "layers": [[0.4, 0.10, 0.22, 0.41, 1200, 100], [0.8, 0.23, 0.39, 0.5, 125, 100]]}):
+        for first, second in (("Wheat", "Maize"), ("Tomato", "Cotton"), ("Maize", "Tomato")):
+            sc_a = dict(id=f"c18-shared-soil-{soil_spec['type']}-{first}", start="1982/05/01", end="1982/12/31",
+                        weather={"kind": "file", "name": "champion_climate.txt"}, soil=soil_spec,
+                        crop={"name": first, "planting": "05/01", "overrides": {}})
+            sc_b = dict(sc_a, id=f"c18-shared-soil-{soil_spec['type']}-{first}-then-{second}", crop={"name": second, "planting": "05/01", "overrides": {}},
+                        soil=dict(soil_spec, dz=None))
+            try:
+                from aquacrop import AquaCropModel
+                oa = S.build_objects(sc_a)
+                ma = AquaCropModel(**oa); ma._initialize()
+                ob = S.build_objects(dict(sc_b, soil=soil_spec)); ob["soil"] = oa["soil"]
+                mb = AquaCropModel(**ob); mb._initialize()
+            except Exception:  # noqa: BLE001
+                continue
+            evals += 1; nontriv += 1
+            c18_model_checks(sc_b, mb, viols)
     # texture-based layers over the pedotransfer function's calibrated range (clay <= 60 %, organic matter <= 8 %)
     from aquacrop.entities.soil import Soil
     pseudo = dict(id="texture-lattice")
